@@ -370,6 +370,8 @@ class Gen:
             d["effects"] = ["e"] * rng.choice([1, 2])
         if self.f["nocache"] and rng.random() < 0.1:
             d["cache"] = "nocache"
+        elif rng.random() < 0.2:
+            d["cache"] = "factory"  # created through one shared, configured decorator (cache=<callable>)
         self.program["datasets"][did] = d
         return did
 
